@@ -244,3 +244,54 @@ class Explorer:
                 self._viol("display", (label, k), hist, ev,
                            "%s row %d type %d shows %d, reference says %d" % (k[0], k[1], k[2], got, v), s)
                 return
+
+
+def binding_cases(ctx, build, system, pool, cases, tag, prv_names=("thread.prv", "cpu.prv"), emu_flags=("-l",)):
+    """Binds the exploration server to the shipped binary: every history in
+    `cases` is written as real stream.obs files (independent writer), run
+    through the real ovniemu built from the same tree, and exit status plus the
+    complete .prv texts must equal what the server produces for the same
+    history followed by finish."""
+    import os
+    from .common import pmap
+    emu = build.tool("plain", "ovniemu")
+    stream_of = {v: k for k, v in pool.local.streams.items()}
+    base = os.path.join(os.path.dirname(pool.tracedir.rstrip("/")), "bind-" + tag)
+    os.makedirs(base, exist_ok=True)
+    lint = 1 if "-l" in emu_flags else 0
+
+    def one(hist):
+        td = os.path.join(base, "w%d" % os.getpid())
+        emusrv.materialise(system, td, hist, stream_of)
+        rc, out, err = emusrv.run_tool(emu, list(emu_flags) + [td])
+        files = {}
+        for n in prv_names:
+            p = os.path.join(td, n)
+            files[n] = open(p).read() if os.path.exists(p) else None
+        return rc, files, err[-300:]
+    real = pmap(one, cases)
+    srv = pool.expand_many([(h, [Fin(lint)]) for h in cases])
+    n = 0
+    for hist, (rc, files, err), (hres, pres) in zip(cases, real, srv):
+        n += 1
+        rep = {"engine": "binding", "history": [e.line() for e in hist], "spec": system.spec, "flags": list(emu_flags)}
+        if not hres.get("ok"):
+            if rc == 0:
+                ctx.violation("binding: server refused an event of %s but real ovniemu accepted the trace" % short_hist(hist),
+                              rep, {"kind": "binding-verdict"})
+            continue
+        r = pres[0]
+        if r.crashed or (rc == 0) != r.ok:
+            ctx.violation("binding: verdicts differ for %s: real ovniemu exit=%r, server finish=%s (%s | %s)" % (
+                short_hist(hist), rc, r.status, r.msg, err), rep, {"kind": "binding-verdict"})
+            continue
+        for nme in prv_names:
+            if files[nme] != r.files.get(nme):
+                rep2 = dict(rep)
+                rep2.update({"real": files[nme], "server": r.files.get(nme)})
+                ctx.violation("binding: %s differs between real ovniemu and server for %s" % (nme, short_hist(hist)),
+                              rep2, {"kind": "binding-prv"})
+                break
+    ctx.add(traces_validated_against_impl=n)
+    ctx.part("binding-" + tag, traces=n)
+    return n
